@@ -323,7 +323,10 @@ def run(ctx):
         jobs.append(("rules", i))
     # ordered pairs of types that differ in one attribute (fixed / open length, rank, dimension names, key type, optionality, element type), put where
     # yardl has to compare them: two cases of one union, the same tag in two unions, a field before / after a version change
-    NEAR = ["int*", "int*3", "int*4", "long*", "int[]", "int[,]", "int[x]", "int[x, y]", "int[3]", "int[3, 4]", "int[x:3]", "string->int", "int->int", "int?", "int", "NRec", "NRec*", "NRec*2", "float[3]", "float[x]"]
+    NEAR = ["int*", "int*3", "int*4", "long*", "int[]", "int[,]", "int[x]", "int[x, y]", "int[3]", "int[3, 4]", "int[x:3]", "string->int", "int->int", "int?", "int", "NRec", "NRec*", "NRec*2", "float[3]", "float[x]",
+            # containers of containers and unions with a single case (a "scalar" whose type has exactly one case), plain and optional at every level
+            "int**", "int*?*", "int**?", "int?**", "string->int*", "string->int*?", "int[]*", "!union {count: int}", "!union {count: NRec}", "!vector {items: !union {only: int}}",
+            "!vector {items: [null, !vector {items: int}]}", "!map {keys: string, values: !vector {items: int}}", "!array {items: !vector {items: int}}"]
     NEARPAIRS = [(a, b, ctxk) for a in NEAR for b in NEAR if a != b for ctxk in ("cases", "tags", "evolve", "switch")]
     if quick:
         NEARPAIRS = [x for i, x in enumerate(NEARPAIRS) if i % 3 == 0]
@@ -407,7 +410,7 @@ def run(ctx):
             desc += " previous version '%s', latest '%s'" % (a, b)
         elif kind == "nearpair":
             ta, tb, ctxk = NEARPAIRS[i]
-            qa, qb = "'%s'" % ta, "'%s'" % tb
+            qa, qb = [t if t.startswith("!") else "'%s'" % t for t in (ta, tb)]
             rec = "NRec: !record\n  fields:\n    q: int\n"
             man = "namespace: %s\njson:\n  outputDir: ../out/json\npython:\n  outputDir: ../out/python\n" % pkg.ns
             if ctxk == "cases":
@@ -417,7 +420,7 @@ def run(ctx):
                 body = rec + "Np: !record\n  fields:\n    u: !union {first: %s, other: bool}\n    w: !union {first: %s, other: bool}\n" % (qa, qb)
                 files = {root_rel + "/_package.yml": man, root_rel + "/model.yml": body}
             elif ctxk == "switch":
-                body = rec + "Np: !record\n  fields:\n    u: !union {first: %s, second: bool}\n  computedFields:\n    c:\n      !switch u:\n        %s x: 1\n        bool y: 2\n" % (qa, tb)
+                body = rec + "Np: !record\n  fields:\n    u: !union {first: %s, second: bool}\n  computedFields:\n    c:\n      !switch u:\n        %s x: 1\n        bool y: 2\n" % (qa, tb if not tb.startswith("!") else "int")
                 files = {root_rel + "/_package.yml": man, root_rel + "/model.yml": body}
             else:
                 tmpl = rec + "Np: !record\n  fields:\n    f: %s\nPp: !protocol\n  sequence:\n    s: %s\n    r: Np\n    t: !stream\n      items: %s\n"
